@@ -1,15 +1,17 @@
-import N0Verif.Proofs.Files
+import N0Verif.Proofs.FilesCodec
 /-!
 # C15 — text and bytes saved to a file load back unchanged under every EOL/mode
 
-Only property statements live here; helper lemmas are in `Proofs/Files.lean` and
-`Py/Lemmas.lean` (`replace_roundtrip`).
+Only property statements live here; helper lemmas are in `Proofs/Files.lean`, `Proofs/FilesCodec.lean`
+(codecs) and `Py/Lemmas.lean` (`replace_roundtrip`).  The model (`Model/Files.lean`) follows the code
+with the fixes `C15-close` and `C15-a` applied.
 
 Vocabulary (defined in `Proofs/Files.lean`):
 * `SaveMode m` — `m` is one of `t`, `b`, `wt`, `wb`, `at`; `TextMode m` — `t`, `wt`, `at`;
 * `isStdEol eol` — `eol` is `"\r\n"`, `"\n"` or `"\r"`; every other EOL (LFCR, custom) takes the manual path;
 * `Codec.Good c` — the assumptions on the encoding: stateless character-wise encoder, ASCII-compatible,
-  `dec (enc s) = s`.  `c.encode s = c.bom ++ enc s` is Python's `s.encode(encoding)`;
+  `dec (enc s) = s`.  `c.encode s = c.bom ++ enc s` is Python's `s.encode(encoding)`.  It is a theorem for
+  the four codec models `utf8`, `utf8sig`, `latin1`, `cp1252` (`C15_codecs_good`);
 * `c.enc s = some y` — the text `s` is encodable (no `UnicodeEncodeError`) and `y` are its bytes;
 * `Fresh fs p m` — the previous content of the file plays no role: a truncating mode, or `at` on a missing file;
 * `EolDisjoint eol text` — the EOL is not empty and its characters other than `'\n'` do not occur in the text;
@@ -62,23 +64,7 @@ theorem C15_roundtrip (c : Codec) (g : c.Good) (fs : FS) (p text m eol tag : Str
   have heol := g.enc_ascii eol ha
   have hdisk := (C15_disk_bytes c fs p text m eol tag y eol hm hf henc heol).2.1
   simp only [Codec.encode, henc, Option.map_some] at hdisk
-  by_cases hstd : isStdEol eol = true
-  · rw [loadFile_text c _ p eol _ _ hstd hdisk ((decodeStream_bom_append c y).trans (g.decode_bom_enc henc)),
-      univNL_replace eol text hstd hcr]
-  · have hstd' : isStdEol eol = false := by simpa using hstd
-    obtain ⟨y', hy', hr⟩ := enc_replace_back c g eol ha text hd y henc
-    apply loadFile_custom c _ p eol _ _ hstd' hd.1 hdisk
-    rw [utf8Enc_ascii eol ha]
-    cases heq : eol with
-    | nil => exact absurd heq hd.1
-    | cons e0 es =>
-      have he0 : e0.toNat < 128 := ha e0 (by simp [heq])
-      rw [replace_skip e0 es lf c.bom y (by
-        intro x hx hxe
-        have := g.bom_high x hx
-        subst hxe; omega)]
-      rw [← heq, hr]
-      exact g.decode_bom_enc hy'
+  exact filesLoad_encoded c g _ p text eol y ha hd hcr henc hdisk
 
 /-- **C15 (round trip, standard EOL)** — the special case with no condition on the EOL. -/
 theorem C15_roundtrip_std (c : Codec) (g : c.Good) (fs : FS) (p text m eol tag : Str) (y : Bytes)
@@ -158,107 +144,82 @@ theorem C15_lines (c : Codec) (g : c.Good) (fs : FS) (p : Str) (ls : List Str) (
     simp only [Function.comp]
     rw [rstrip_line l (hl l hl').1 (hl l hl').2]
 
-/-- **C15 (lines on disk), full statement**: under *every* mode and EOL the file holds the lines,
-each followed by the EOL, encoded as one stream (one start-of-stream mark at most). -/
-def C15_lines_disk_stmt : Prop :=
-  ∀ (c : Codec), c.Good → ∀ (fs : FS) (p : Str) (ls : List Str) (m eol tag : Str) (y e : Bytes),
-    SaveMode m → Fresh fs p m → (∀ l ∈ ls, NoLF l) → c.enc eol = some e →
-    c.enc (replace lf eol (unlines ls)) = some y →
-    (saveFile c fs p (.lines (ls.map Line.str)) m eol tag).1 p = some ((if ls.isEmpty then [] else c.bom) ++ y)
-
-/-- what is provable: the text layer (text mode + standard EOL), or a codec without mark -/
-theorem C15_lines_disk_partial (c : Codec) (g : c.Good) (fs : FS) (p : Str) (ls : List Str) (m eol tag : Str)
+/-- **C15 (lines on disk).**  Under *every* mode and EOL — text layer or manual path — the file
+holds the lines, each followed by the EOL, encoded as one stream: one start-of-stream mark at
+most, at offset 0 (none for an empty list).  Full statement; it was refuted on the code before
+fix `C15-a` (every line and every EOL carried its own mark). -/
+theorem C15_lines_disk (c : Codec) (g : c.Good) (fs : FS) (p : Str) (ls : List Str) (m eol tag : Str)
     (y e : Bytes) (hm : SaveMode m) (hf : Fresh fs p m) (hl : ∀ l ∈ ls, NoLF l) (heol : c.enc eol = some e)
-    (henc : c.enc (replace lf eol (unlines ls)) = some y)
-    (hsafe : c.bom = [] ∨ textLayer m eol = true) :
-    (saveFile c fs p (.lines (ls.map Line.str)) m eol tag).1 p = some ((if ls.isEmpty then [] else c.bom) ++ y) := by
+    (henc : c.enc (replace lf eol (unlines ls)) = some y) :
+    (saveFile c fs p (.lines (ls.map Line.str)) m eol tag).2 = .ok ()
+    ∧ (saveFile c fs p (.lines (ls.map Line.str)) m eol tag).1 p = some ((if ls.isEmpty then [] else c.bom) ++ y) := by
   by_cases ht : textLayer m eol = true
   · have ht' : (m = ['t'] ∨ m = ['w', 't'] ∨ m = ['a', 't']) ∧ isStdEol eol = true := by
       simpa [textLayer, Bool.and_eq_true, Bool.or_eq_true, or_assoc] using ht
     rw [saveFile_lines_text c g fs p ls m eol tag y ht'.1 ht'.2 henc, startContent_fresh hf]
+    refine ⟨rfl, ?_⟩
     cases ls <;> simp [FS.write]
   · have ht' : textLayer m eol = false := by simpa using ht
-    have hb : c.bom = [] := by
-      rcases hsafe with h | h
-      · exact h
-      · exact absurd h ht
-    rw [saveFile_lines_bin c g hb fs p ls m eol tag y e hm ht' hl heol henc, startContent_fresh hf, hb]
+    rw [saveFile_lines_bin c g fs p ls m eol tag y e hm ht' hl heol henc, startContent_fresh hf]
+    refine ⟨rfl, ?_⟩
     cases ls <;> simp [FS.write]
 
-/-- the code violates the full statement: with a mark-emitting codec on the manual path every
-line and every EOL gets its own mark (finding C15-b) -/
-theorem C15_lines_bom_cex : ¬ C15_lines_disk_stmt := by
-  intro h
-  have := h asciiSig asciiSig_good (fun _ => none) ['f'] [['a']] ['w', 'b'] ['\n'] ['='] ['a', '\n'] ['\n']
-    (by simp [SaveMode]) (by intro hm; rfl) (by intro l hl; simp at hl; subst hl; simp [NoLF]) (by decide) (by decide)
-  revert this
-  decide
-
-/-- the same defect on the concrete `utf-8-sig` model, the witness the harness replays:
-`save_file(p, ['a'], 'wb', encoding='utf-8-sig', EOL='\n')` writes `BOM a BOM \n` -/
-theorem C15_lines_bom_witness :
+/-- the former witness of finding C15-b on the concrete `utf-8-sig` model, after the fix:
+`save_file(p, ['a'], 'wb', encoding='utf-8-sig', EOL='\n')` writes `BOM a \n` (was `BOM a BOM \n`) -/
+theorem C15_lines_bom_witness_fixed :
     (saveFile utf8sig (fun _ => none) ['f'] (.lines [.str ['a']]) ['w', 'b'] ['\n'] ['=']).1 ['f']
-      = some (bomUtf8 ++ ['a'] ++ bomUtf8 ++ ['\n']) := by decide
+      = some (bomUtf8 ++ ['a', '\n']) := by decide
 
-/-- **C15 (append), full statement**: `at` adds the encoded text to the existing content (one
-stream: no second start-of-stream mark). -/
-def C15_append_stmt : Prop :=
-  ∀ (c : Codec), c.Good → ∀ (fs : FS) (p : Str) (old : Bytes) (text eol tag : Str) (y e : Bytes),
-    fs p = some old → old ≠ [] → c.enc eol = some e → c.enc (replace lf eol text) = some y →
+/-- **C15 (append).**  `at` on a file with content adds the encoded text to it — one stream, no
+second start-of-stream mark — under every EOL and every codec.  Full statement; it was refuted on
+the code before fix `C15-a` (custom EOL + a mark-emitting codec wrote the mark in the middle). -/
+theorem C15_append (c : Codec) (fs : FS) (p : Str) (old : Bytes) (text eol tag : Str) (y e : Bytes)
+    (hold : fs p = some old) (hne : old ≠ []) (heol : c.enc eol = some e)
+    (henc : c.enc (replace lf eol text) = some y) :
     (saveFile c fs p (.str text) ['a', 't'] eol tag).2 = .ok ()
     ∧ (saveFile c fs p (.str text) ['a', 't'] eol tag).1 p = some (old ++ y)
-
-/-- what is provable: a standard EOL (Python's text layer appends), or a codec without mark -/
-theorem C15_append_partial (c : Codec) (fs : FS) (p : Str) (old : Bytes) (text eol tag : Str) (y e : Bytes)
-    (hold : fs p = some old) (hne : old ≠ []) (heol : c.enc eol = some e)
-    (henc : c.enc (replace lf eol text) = some y)
-    (hsafe : c.bom = [] ∨ isStdEol eol = true) :
-    (saveFile c fs p (.str text) ['a', 't'] eol tag).2 = .ok ()
-    ∧ (saveFile c fs p (.str text) ['a', 't'] eol tag).1 p = some (old ++ y) := by
+    ∧ ∀ q, q ≠ p → (saveFile c fs p (.str text) ['a', 't'] eol tag).1 q = fs q := by
   rw [saveFile_str c fs p text ['a', 't'] eol tag y e (by simp [SaveMode]) henc heol]
-  refine ⟨rfl, ?_⟩
   have hs : startContent fs p ['a', 't'] = old := by simp [startContent, hold]
   have hne' : old.isEmpty = false := by cases old <;> simp_all
-  rcases hsafe with hb | hstd
-  · simp [FS.write, mark, hs, hb]
-  · simp [FS.write, mark, hs, textLayer, hstd, hne']
+  refine ⟨rfl, by simp [FS.write, mark, hs, hne'], ?_⟩
+  intro q hq; simp [FS.write, hq]
 
-/-- **C15 (append through the text layer)**: the instance of the above for the standard EOLs,
-for every codec. -/
-theorem C15_append_text (c : Codec) (fs : FS) (p : Str) (old : Bytes) (text eol tag : Str) (y e : Bytes)
-    (hold : fs p = some old) (hne : old ≠ []) (hstd : isStdEol eol = true) (heol : c.enc eol = some e)
-    (henc : c.enc (replace lf eol text) = some y) :
-    (saveFile c fs p (.str text) ['a', 't'] eol tag).1 p = some (old ++ y) :=
-  (C15_append_partial c fs p old text eol tag y e hold hne heol henc (Or.inr hstd)).2
+/-- **C15 (append, lines).**  The same for a list of lines appended to a file with content. -/
+theorem C15_append_lines (c : Codec) (g : c.Good) (fs : FS) (p : Str) (old : Bytes) (ls : List Str) (eol tag : Str)
+    (y e : Bytes) (hold : fs p = some old) (hne : old ≠ []) (hl : ∀ l ∈ ls, NoLF l) (heol : c.enc eol = some e)
+    (henc : c.enc (replace lf eol (unlines ls)) = some y) :
+    (saveFile c fs p (.lines (ls.map Line.str)) ['a', 't'] eol tag).1 p = some (old ++ y) := by
+  have hs : startContent fs p ['a', 't'] = old := by simp [startContent, hold]
+  have hne' : old.isEmpty = false := by cases old <;> simp_all
+  by_cases hstd : isStdEol eol = true
+  · rw [saveFile_lines_text c g fs p ls ['a', 't'] eol tag y (by simp [TextMode]) hstd henc, hs]
+    simp [FS.write, hne']
+  · have ht' : textLayer ['a', 't'] eol = false := by simp [textLayer, hstd]
+    rw [saveFile_lines_bin c g fs p ls ['a', 't'] eol tag y e (by simp [SaveMode]) ht' hl heol henc, hs]
+    simp [FS.write, hne']
 
-/-- the code violates the full statement (finding C15-a): append + custom EOL + a mark-emitting
-codec writes the mark in the middle of the file -/
-theorem C15_append_bom_cex : ¬ C15_append_stmt := by
-  intro h
-  have := h asciiSig asciiSig_good (FS.write (fun _ => none) ['f'] (bomUtf8 ++ ['1', '\n'])) ['f']
-    (bomUtf8 ++ ['1', '\n']) ['2', '\n'] ['|'] ['='] ['2', '|'] ['|']
-    (by simp [FS.write]) (by simp [bomUtf8]) (by decide) (by decide)
-  revert this
-  decide
-
-/-- the witness the harness replays, on the concrete `utf-8-sig` model:
-`save_file(p,'1\n','wt',…); save_file(p,'2\n','at',EOL='|',encoding='utf-8-sig')` → `BOM 1 | BOM 2 |` -/
-theorem C15_append_bom_witness :
+/-- the former witness of finding C15-a on the concrete `utf-8-sig` model, after the fix:
+`save_file(p,'1\n','wt',EOL='|',…); save_file(p,'2\n','at',EOL='|',encoding='utf-8-sig')` → `BOM 1|2|`
+(was `BOM 1| BOM 2|`) -/
+theorem C15_append_bom_witness_fixed :
     (saveFile utf8sig
       (saveFile utf8sig (fun _ => none) ['f'] (.str ['1', '\n']) ['w', 't'] ['|'] ['=']).1
       ['f'] (.str ['2', '\n']) ['a', 't'] ['|'] ['=']).1 ['f']
-      = some (bomUtf8 ++ ['1', '|'] ++ bomUtf8 ++ ['2', '|']) := by decide
+      = some (bomUtf8 ++ ['1', '|', '2', '|']) := by decide
 
-/-- **C15 (append round trip).**  Standard EOL: a text saved, a second text appended with `at`;
-the file is the encoding of the concatenation as one stream and loads back as the concatenation. -/
+/-- **C15 (append round trip).**  A text saved, a second text appended with `at`, same ASCII EOL
+(standard, LFCR or custom): the file is the encoding of the concatenation as one stream and loads
+back as the concatenation. -/
 theorem C15_append_roundtrip (c : Codec) (g : c.Good) (fs : FS) (p s1 s2 m eol tag : Str) (y1 y2 : Bytes)
-    (hm : SaveMode m) (hf : Fresh fs p m) (hstd : isStdEol eol = true) (h1 : NoCR s1) (h2 : NoCR s2)
+    (hm : SaveMode m) (hf : Fresh fs p m) (ha : IsAscii eol) (hd : EolDisjoint eol (s1 ++ s2))
+    (h1 : NoCR s1) (h2 : NoCR s2)
     (e1 : c.enc (replace lf eol s1) = some y1) (e2 : c.enc (replace lf eol s2) = some y2) :
     (saveFile c (saveFile c fs p (.str s1) m eol tag).1 p (.str s2) ['a', 't'] eol tag).1 p
         = c.encode (replace lf eol (s1 ++ s2))
     ∧ loadFile c (saveFile c (saveFile c fs p (.str s1) m eol tag).1 p (.str s2) ['a', 't'] eol tag).1 p ['t'] eol
         = .ok (.str (s1 ++ s2)) := by
-  have heol := g.enc_ascii eol (std_ascii eol hstd)
+  have heol := g.enc_ascii eol ha
   have hd1 := (C15_disk_bytes c fs p s1 m eol tag y1 eol hm hf e1 heol).2.1
   simp only [Codec.encode, e1, Option.map_some] at hd1
   have e12 : c.enc (replace lf eol (s1 ++ s2)) = some (y1 ++ y2) := by
@@ -273,12 +234,127 @@ theorem C15_append_roundtrip (c : Codec) (g : c.Good) (fs : FS) (p s1 s2 m eol t
       have hb : c.bom = [] := (List.append_eq_nil_iff.mp hemp).1
       have hy : y1 = [] := (List.append_eq_nil_iff.mp hemp).2
       simp [FS.write, mark, hs, hb, hy]
-    · rw [(C15_append_partial c _ p (c.bom ++ y1) s2 eol tag y2 eol hd1 hemp heol e2 (Or.inr hstd)).2]
+    · rw [(C15_append c _ p (c.bom ++ y1) s2 eol tag y2 eol hd1 hemp heol e2).2.1]
       simp
   refine ⟨by simp [hdisk, Codec.encode, e12], ?_⟩
-  rw [loadFile_text c _ p eol _ _ hstd hdisk ((decodeStream_bom_append c _).trans (g.decode_bom_enc e12))]
-  rw [univNL_replace eol _ hstd (by
-    unfold NoCR at *; simp only [List.mem_append, not_or]; exact ⟨h1, h2⟩)]
+  exact filesLoad_encoded c g _ p (s1 ++ s2) eol (y1 ++ y2) ha hd (by
+    unfold NoCR at *; simp only [List.mem_append, not_or]; exact ⟨h1, h2⟩) e12 hdisk
+
+/-! ### The concrete codecs: the assumptions discharged
+
+`Codec.Good` is a theorem for each of the four codec models (`Proofs/FilesCodec.lean`): utf-8 and
+utf-8-sig (1–4 byte forms, strict decoder), latin-1, and cp1252 — a table codec whose table is
+generated from the interpreter (`Gen/Cp1252.lean`).  The statements below are the instances of
+`C15_disk_bytes`, `C15_roundtrip` and `C15_lines` without the abstract hypothesis; for utf-8 and
+utf-8-sig every text is encodable, so no encodability hypothesis is left either. -/
+
+/-- **the four codecs satisfy the assumptions** -/
+theorem C15_codecs_good : utf8.Good ∧ utf8sig.Good ∧ latin1.Good ∧ cp1252.Good :=
+  ⟨utf8_good, utf8sig_good, latin1_good, cp1252_good⟩
+
+/-- **C15 (bytes on disk, utf-8)**: every text, every EOL: the file is the utf-8 form of `text.replace('\n', EOL)` -/
+theorem C15_disk_bytes_utf8 (fs : FS) (p text m eol tag : Str) (hm : SaveMode m) (hf : Fresh fs p m) :
+    (saveFile utf8 fs p (.str text) m eol tag).2 = .ok ()
+    ∧ (saveFile utf8 fs p (.str text) m eol tag).1 p = some (utf8Enc (replace lf eol text))
+    ∧ ∀ q, q ≠ p → (saveFile utf8 fs p (.str text) m eol tag).1 q = fs q := by
+  have h := C15_disk_bytes utf8 fs p text m eol tag (utf8Enc (replace lf eol text)) (utf8Enc eol) hm hf rfl rfl
+  exact ⟨h.1, by rw [h.2.1]; rfl, h.2.2⟩
+
+/-- **C15 (bytes on disk, utf-8-sig)**: the signature once, at offset 0, then the utf-8 form -/
+theorem C15_disk_bytes_utf8sig (fs : FS) (p text m eol tag : Str) (hm : SaveMode m) (hf : Fresh fs p m) :
+    (saveFile utf8sig fs p (.str text) m eol tag).2 = .ok ()
+    ∧ (saveFile utf8sig fs p (.str text) m eol tag).1 p = some (bomUtf8 ++ utf8Enc (replace lf eol text))
+    ∧ ∀ q, q ≠ p → (saveFile utf8sig fs p (.str text) m eol tag).1 q = fs q := by
+  have h := C15_disk_bytes utf8sig fs p text m eol tag (utf8Enc (replace lf eol text)) (utf8Enc eol) hm hf rfl rfl
+  exact ⟨h.1, by rw [h.2.1]; rfl, h.2.2⟩
+
+/-- **C15 (bytes on disk, cp1252)**: an encodable text and an ASCII EOL -/
+theorem C15_disk_bytes_cp1252 (fs : FS) (p text m eol tag : Str) (y : Bytes) (hm : SaveMode m) (hf : Fresh fs p m)
+    (ha : IsAscii eol) (henc : cp1252.enc (replace lf eol text) = some y) :
+    (saveFile cp1252 fs p (.str text) m eol tag).2 = .ok ()
+    ∧ (saveFile cp1252 fs p (.str text) m eol tag).1 p = some y
+    ∧ ∀ q, q ≠ p → (saveFile cp1252 fs p (.str text) m eol tag).1 q = fs q := by
+  have h := C15_disk_bytes cp1252 fs p text m eol tag y eol hm hf henc (cp1252_good.enc_ascii eol ha)
+  refine ⟨h.1, ?_, h.2.2⟩
+  rw [h.2.1, Codec.encode, henc]; rfl
+
+/-- **C15 (round trip, utf-8)**: no hypothesis on the codec, none on encodability -/
+theorem C15_roundtrip_utf8 (fs : FS) (p text m eol tag : Str)
+    (hm : SaveMode m) (hf : Fresh fs p m) (ha : IsAscii eol) (hd : EolDisjoint eol text) (hcr : NoCR text) :
+    loadFile utf8 (saveFile utf8 fs p (.str text) m eol tag).1 p ['t'] eol = .ok (.str text) :=
+  C15_roundtrip utf8 utf8_good fs p text m eol tag _ hm hf ha hd hcr rfl
+
+/-- **C15 (round trip, utf-8-sig)** -/
+theorem C15_roundtrip_utf8sig (fs : FS) (p text m eol tag : Str)
+    (hm : SaveMode m) (hf : Fresh fs p m) (ha : IsAscii eol) (hd : EolDisjoint eol text) (hcr : NoCR text) :
+    loadFile utf8sig (saveFile utf8sig fs p (.str text) m eol tag).1 p ['t'] eol = .ok (.str text) :=
+  C15_roundtrip utf8sig utf8sig_good fs p text m eol tag _ hm hf ha hd hcr rfl
+
+/-- **C15 (round trip, cp1252)**: every text the generated table can encode -/
+theorem C15_roundtrip_cp1252 (fs : FS) (p text m eol tag : Str) (y : Bytes)
+    (hm : SaveMode m) (hf : Fresh fs p m) (ha : IsAscii eol) (hd : EolDisjoint eol text) (hcr : NoCR text)
+    (henc : cp1252.enc (replace lf eol text) = some y) :
+    loadFile cp1252 (saveFile cp1252 fs p (.str text) m eol tag).1 p ['t'] eol = .ok (.str text) :=
+  C15_roundtrip cp1252 cp1252_good fs p text m eol tag y hm hf ha hd hcr henc
+
+/-- **C15 (round trip, latin-1)** -/
+theorem C15_roundtrip_latin1 (fs : FS) (p text m eol tag : Str) (y : Bytes)
+    (hm : SaveMode m) (hf : Fresh fs p m) (ha : IsAscii eol) (hd : EolDisjoint eol text) (hcr : NoCR text)
+    (henc : latin1.enc (replace lf eol text) = some y) :
+    loadFile latin1 (saveFile latin1 fs p (.str text) m eol tag).1 p ['t'] eol = .ok (.str text) :=
+  C15_roundtrip latin1 latin1_good fs p text m eol tag y hm hf ha hd hcr henc
+
+/-- **C15 (lines, utf-8)** -/
+theorem C15_lines_utf8 (fs : FS) (p : Str) (ls : List Str) (m eol tag : Str)
+    (hm : TextMode m) (hf : Fresh fs p m) (hstd : isStdEol eol = true) (hl : ∀ l ∈ ls, NoCR l ∧ NoLF l) :
+    (saveFile utf8 fs p (.lines (ls.map Line.str)) m eol tag).2 = .ok ()
+    ∧ (saveFile utf8 fs p (.lines (ls.map Line.str)) m eol tag).1 p = some (utf8Enc (replace lf eol (unlines ls)))
+    ∧ loadLines utf8 (saveFile utf8 fs p (.lines (ls.map Line.str)) m eol tag).1 p ['t'] eol
+        = .ok (ls.map Loaded.str) := by
+  have h := C15_lines utf8 utf8_good fs p ls m eol tag _ hm hf hstd hl rfl
+  refine ⟨h.1, ?_, h.2.2⟩
+  rw [h.2.1]; cases ls <;> rfl
+
+/-- **C15 (lines, utf-8-sig)**: one signature at offset 0 (none for an empty list) -/
+theorem C15_lines_utf8sig (fs : FS) (p : Str) (ls : List Str) (m eol tag : Str)
+    (hm : TextMode m) (hf : Fresh fs p m) (hstd : isStdEol eol = true) (hl : ∀ l ∈ ls, NoCR l ∧ NoLF l) :
+    (saveFile utf8sig fs p (.lines (ls.map Line.str)) m eol tag).2 = .ok ()
+    ∧ (saveFile utf8sig fs p (.lines (ls.map Line.str)) m eol tag).1 p
+        = some ((if ls.isEmpty then [] else bomUtf8) ++ utf8Enc (replace lf eol (unlines ls)))
+    ∧ loadLines utf8sig (saveFile utf8sig fs p (.lines (ls.map Line.str)) m eol tag).1 p ['t'] eol
+        = .ok (ls.map Loaded.str) :=
+  C15_lines utf8sig utf8sig_good fs p ls m eol tag _ hm hf hstd hl rfl
+
+/-- **C15 (lines, cp1252)** -/
+theorem C15_lines_cp1252 (fs : FS) (p : Str) (ls : List Str) (m eol tag : Str) (y : Bytes)
+    (hm : TextMode m) (hf : Fresh fs p m) (hstd : isStdEol eol = true) (hl : ∀ l ∈ ls, NoCR l ∧ NoLF l)
+    (henc : cp1252.enc (replace lf eol (unlines ls)) = some y) :
+    (saveFile cp1252 fs p (.lines (ls.map Line.str)) m eol tag).2 = .ok ()
+    ∧ (saveFile cp1252 fs p (.lines (ls.map Line.str)) m eol tag).1 p = some y
+    ∧ loadLines cp1252 (saveFile cp1252 fs p (.lines (ls.map Line.str)) m eol tag).1 p ['t'] eol
+        = .ok (ls.map Loaded.str) := by
+  have h := C15_lines cp1252 cp1252_good fs p ls m eol tag y hm hf hstd hl henc
+  refine ⟨h.1, ?_, h.2.2⟩
+  rw [h.2.1]; cases ls <;> rfl
+
+/-- **C15 (utf-8 decoder is strict)**: the decoder of the model accepts exactly the encoder's
+output — `decode ∘ encode = id`, and nothing else decodes (overlong forms, encoded surrogates,
+values above U+10FFFF, truncated sequences are `UnicodeDecodeError`). -/
+theorem C15_utf8_strict (b : Bytes) (s : Str) : utf8.dec b = some s ↔ utf8.enc s = some b := by
+  show utf8Dec b = some s ↔ some (utf8Enc s) = some b
+  rw [utf8Dec_eq_some_iff]; simp
+
+/-- **C15 (utf-8-sig signature)**: a fresh encoder writes it once at position 0; the reader skips
+it once (a second one is the character U+FEFF); a text-mode read of a file that is a strict prefix
+of the signature yields the empty text while `bytes.decode` raises. -/
+theorem C15_utf8sig_bom (s : Str) :
+    utf8sig.encode s = some (bomUtf8 ++ utf8Enc s)
+    ∧ utf8sig.decode (bomUtf8 ++ utf8Enc s) = some s
+    ∧ utf8sig.decode (bomUtf8 ++ (bomUtf8 ++ utf8Enc s)) = some (Char.ofNat 0xFEFF :: s)
+    ∧ utf8sig.decodeStream [Char.ofNat 0xEF] = some [] ∧ utf8sig.decodeStream [Char.ofNat 0xEF, Char.ofNat 0xBB] = some []
+    ∧ utf8sig.decode [Char.ofNat 0xEF] = none ∧ utf8sig.decode [Char.ofNat 0xEF, Char.ofNat 0xBB] = none :=
+  ⟨rfl, utf8sig_decode_bom s, utf8sig_decode_bom_twice s, utf8sig_decodeStream_prefix.1, utf8sig_decodeStream_prefix.2.1,
+   utf8sig_decodeStream_prefix.2.2.1, utf8sig_decodeStream_prefix.2.2.2⟩
 
 /-! ### Non-vacuity: concrete inhabitants of the hypotheses, exercising every path -/
 
@@ -305,5 +381,21 @@ example : (saveFile asciiSig (saveFile asciiSig (fun _ => none) ['f'] (.str ['1'
 -- bytes under a text mode
 example : (saveFile utf8sig (fun _ => none) ['f'] (.bytes ['\r', '\n', 'x']) ['t'] ['|'] ['=']).1 ['f']
     = some ['\r', '\n', 'x'] := by decide
+
+-- the concrete codecs: 1-4 byte forms through the manual path (custom EOL) and the text layer
+example : loadFile utf8sig (saveFile utf8sig (fun _ => none) ['f'] (.str ['é', '\n', '€', '😀', '\n']) ['w', 't']
+    ['|', '~', '|'] ['=']).1 ['f'] ['t'] ['|', '~', '|'] = .ok (.str ['é', '\n', '€', '😀', '\n']) := by decide
+example : (saveFile utf8 (fun _ => none) ['f'] (.str ['é', '\n']) ['t'] ['\r', '\n'] ['=']).1 ['f']
+    = some [Char.ofNat 0xC3, Char.ofNat 0xA9, '\r', '\n'] := by decide
+-- cp1252 through the generated table: U+20AC is byte 0x80, U+0081 has no byte, byte 0x81 no character
+example : cp1252.enc ['€', 'a', 'ÿ'] = some [Char.ofNat 0x80, 'a', 'ÿ'] ∧ cp1252.enc [Char.ofNat 0x81] = none
+    ∧ cp1252.dec [Char.ofNat 0x80] = some ['€'] ∧ cp1252.dec [Char.ofNat 0x81] = none := by decide +kernel
+example : loadFile cp1252 (saveFile cp1252 (fun _ => none) ['f'] (.str ['€', '\n', 'é']) ['a', 't'] ['\n', '\r'] ['=']).1
+    ['f'] ['t'] ['\n', '\r'] = .ok (.str ['€', '\n', 'é']) := by decide +kernel
+-- lines and append on the manual path with a signature codec (the former findings): one signature
+example : (saveFile utf8sig (fun _ => none) ['f'] (.lines [.str ['a'], .bytes ['b'], .other ['7']]) ['b'] [';'] ['=']).1 ['f']
+    = some (bomUtf8 ++ ['a', ';', 'b', ';', '7', ';']) := by decide
+example : (saveFile utf8sig (FS.write (fun _ => none) ['f'] ['x']) ['f'] (.lines [.str ['a']]) ['a', 't'] [';'] ['=']).1 ['f']
+    = some ['x', 'a', ';'] := by decide
 
 end N0.C15
